@@ -88,7 +88,7 @@ type C28Block struct {
 //	snap   vm/qeval  q28.Snap()
 //	render vm/qrender q28:
 //	kv     vm/qeval  kv.Get(Key)             (package-loading eval of another realm)
-//	qfile  vm/qfile  gno.land/r/vv/g<Pkg>/a.gno (package deployed by the Pkg-th addpkg tx)
+//	qfile  vm/qfile  gno.land/r/vv/g<Pkg>/a.gno (package deployed by the Pkg-th addpkg tx; Pkg<0: the witness realm)
 //	acct   auth/accounts/<addr of Acc>        (HSel>0: at an explicit height)
 //	store  .store/main/key /a/<addr of Acc>   (HSel>0: at an explicit height)
 //	sim    .app/simulate of a Tick tx of the dedicated simulate account
@@ -187,6 +187,9 @@ func (q C28Query) Request(c C28Case, simTx []byte) abci.RequestQuery {
 	case "kv":
 		return abci.RequestQuery{Path: "vm/qeval", Data: []byte(ec.PathKV + ".Get(\"" + q.Key + "\")")}
 	case "qfile":
+		if q.Pkg < 0 { // the witness realm's own source
+			return abci.RequestQuery{Path: "vm/qfile", Data: []byte(C28Path + "/a.gno")}
+		}
 		return abci.RequestQuery{Path: "vm/qfile", Data: []byte(c28GenPkgPath(q.Pkg) + "/a.gno")}
 	case "acct":
 		return abci.RequestQuery{Path: "auth/accounts/" + c28Addr(c, q.Acc).Addr.String(), Height: q.Height(c)}
